@@ -110,6 +110,11 @@ def run_case(mon, base, case, sh):
         elif spell == 2:
             os.makedirs(os.path.join(src, "inner"), exist_ok=True)
             given = os.path.join(src, "inner", "..")
+        elif spell == 3:
+            # ... or through a symbolic link: relative dependencies are relative to the directory as it was named (what the author of the
+            # package.toml sees), not to wherever the link leads
+            os.symlink(".", os.path.join(root, "via-link"))
+            given = os.path.join(root, "via-link", case["loc"])
         rep = mon.call({"op": "composite", "dir": given, "dest": dest, "map": [[k, v] for k, v in case["map"].items()]})
         sh.evaluations += 1
         out_path = os.path.join(dest, "package.toml")
@@ -139,7 +144,7 @@ def run_case(mon, base, case, sh):
             elif ":" in d.split("/")[0] or d.startswith("/"):
                 want_deps.append(d)
             else:
-                want_deps.append(posixpath.normpath(posixpath.join(src, d)))
+                want_deps.append(posixpath.normpath(posixpath.join(given if spell == 3 else src, d)))
         got_deps = [x.get("uri") for x in got.get("dependencies", [])]
         # scheme case: uriparse lower-cases the scheme while parsing. Reported under its own exact signature
         # (a listed known finding); everything else about the case is still checked.
